@@ -93,6 +93,7 @@ func (r *Report) Violation(key string, noInput bool, replay map[string]interface
 		return false
 	}
 	os.MkdirAll(r.replayDir, 0o755)
+	r.ClearPending()
 	r.nrep++
 	path := filepath.Join(r.replayDir, fmt.Sprintf("%s-%d-%d.json", r.Property, r.Seed, r.nrep))
 	replay["property"] = r.Property
@@ -109,6 +110,19 @@ func (r *Report) Violation(key string, noInput bool, replay map[string]interface
 	r.Violations = append(r.Violations, path)
 	r.NoInput = append(r.NoInput, noInput)
 	return true
+}
+
+// Pending records a failing case before it is shrunk, so that it
+// survives if the process dies during shrinking (corrupted trees can
+// provoke unrecoverable runtime errors such as a stack overflow).
+func (r *Report) Pending(replay map[string]interface{}) {
+	os.MkdirAll(r.replayDir, 0o755)
+	b, _ := json.MarshalIndent(replay, "", " ")
+	os.WriteFile(filepath.Join(r.replayDir, fmt.Sprintf("%s-%d-pending.json", r.Property, r.Seed)), b, 0o644)
+}
+
+func (r *Report) ClearPending() {
+	os.Remove(filepath.Join(r.replayDir, fmt.Sprintf("%s-%d-pending.json", r.Property, r.Seed)))
 }
 
 func (r *Report) Finish() int {
